@@ -36,6 +36,7 @@ type Case struct {
 	Final       string `json:"second_phase_final"` // ok | fail | noreply
 	Cancel      string `json:"cancel"`             // never | before-begin | in-callback | second-phase-first-request
 	Propagation int    `json:"propagation"`        // 0 Required (default), 1 RequiresNew
+	Inner       string `json:"inner,omitempty"`    // "" | join: the callback runs a nested Required scope on the same context (a participant that sends nothing)
 }
 
 type sentinel struct{ s string }
@@ -112,6 +113,10 @@ func execute(c Case) observed {
 			o.XidSeen = tm.GetXID(ctx)
 			if c.Cancel == "in-callback" {
 				cancel()
+			}
+			if c.Inner == "join" {
+				// a nested scope that joins: it must not disturb the initiator's decision
+				_ = tm.WithGlobalTx(ctx, &tm.GtxConfig{Name: "c04-inner"}, func(context.Context) error { return nil })
 			}
 			switch c.Outcome {
 			case "error":
@@ -328,13 +333,16 @@ func drawCase(t *rapid.T) Case {
 		Final:     rapid.SampledFrom([]string{"ok", "ok", "fail"}).Draw(t, "final"),
 		Cancel:    rapid.SampledFrom([]string{"never", "never", "never", "before-begin", "in-callback", "second-phase-first-request"}).Draw(t, "cancel"),
 	}
+	if rapid.IntRange(0, 3).Draw(t, "inner") == 0 {
+		c.Inner = "join"
+	}
 	return c
 }
 
 func record(test string, c Case) {
-	nt := c.Outcome != "nil" || c.Begin != "ok" || c.Transport > 0 || c.Final != "ok" || c.Cancel != "never"
+	nt := c.Outcome != "nil" || c.Begin != "ok" || c.Transport > 0 || c.Final != "ok" || c.Cancel != "never" || c.Inner != ""
 	b, _ := json.Marshal(c)
-	ctx.Rec.Case(test, nt, string(b), c, "outcome:"+c.Outcome, "role:"+c.Role, "begin:"+c.Begin, "final:"+c.Final, "cancel:"+c.Cancel, fmt.Sprintf("transport-errors:%d", c.Transport))
+	ctx.Rec.Case(test, nt, string(b), c, "outcome:"+c.Outcome, "role:"+c.Role, "begin:"+c.Begin, "final:"+c.Final, "cancel:"+c.Cancel, "inner:"+c.Inner, fmt.Sprintf("transport-errors:%d", c.Transport))
 }
 
 func TestPropDecision(t *testing.T) {
